@@ -13,6 +13,8 @@
 (*             step of the set-up fails                                                             *)
 (*   tbeh      what the target does with the forwarded intent: accepts and stores it, refuses by   *)
 (*             policy, fails to store it, answers with a message of an undefined type, closes       *)
+(*   gt        "std" (shell / command) or "pf": a port-forwarding grant type, which the messages      *)
+(*             cannot carry - the principal answers with a denial and gives up on the connection       *)
 (* Choices that cannot matter in the state in which the request is handled are not branched ("-"). *)
 (*                                                                                                 *)
 (* Variant = "fixed" is the protocol as it should be (and as the repaired code implements it);      *)
@@ -22,19 +24,20 @@ EXTENDS Integers, Sequences, FiniteSets, TLC
 CONSTANTS MaxReq, Variant
 
 TClasses == {"base", "otherhost", "otheruser", "otherport"}
-VARIABLES k,          \* next request
+VARIABLES over,       \* 0, or the number of the request after which the principal gave up on the delegate connection
+          k,          \* next request
           connected, connTarget, tdead,
           sc,         \* scenario so far: one record of choices per request
           cb,         \* approval callback log: <<request, decision>>
           fwd,        \* requests forwarded to the target, in order
           stored,     \* requests the target stored as grants
           ans         \* per request: sequence of answers the delegate received
-vars == <<k, connected, connTarget, tdead, sc, cb, fwd, stored, ans>>
+vars == <<over, k, connected, connTarget, tdead, sc, cb, fwd, stored, ans>>
 
-Init == k = 1 /\ connected = FALSE /\ connTarget = "-" /\ tdead = FALSE /\ sc = <<>> /\ cb = <<>> /\ fwd = <<>>
+Init == over = 0 /\ k = 1 /\ connected = FALSE /\ connTarget = "-" /\ tdead = FALSE /\ sc = <<>> /\ cb = <<>> /\ fwd = <<>>
         /\ stored = {} /\ ans = <<>>
 
-Choice(tc, d, su, tb) == [tclass |-> tc, decision |-> d, setup |-> su, tbeh |-> tb]
+Choice(tc, d, su, tb) == [tclass |-> tc, decision |-> d, setup |-> su, tbeh |-> tb, gt |-> "std"]
 
 (* the target's part: what the principal reads back for a forwarded intent, and what the target keeps *)
 TargetAnswer(tb) == IF tb = "confirm" THEN "confirm" ELSE "deny"
@@ -50,16 +53,25 @@ Forward(tc, d, su, tb, conn1, ct1, cb1) ==
             /\ stored' = IF tb = "confirm" THEN stored \cup {k} ELSE stored
             /\ tdead' = (tb = "close")
             /\ ans' = Append(ans, <<TargetAnswer(tb)>>)
-    /\ k' = k + 1
+    /\ k' = k + 1 /\ UNCHANGED over
 
 Deny(tc, d, su, conn1, ct1, cb1, n) ==
     /\ sc' = Append(sc, Choice(tc, d, su, "-"))
     /\ cb' = cb1 /\ connected' = conn1 /\ connTarget' = ct1
     /\ ans' = Append(ans, [i \in 1..n |-> "deny"])
-    /\ k' = k + 1 /\ UNCHANGED <<fwd, stored, tdead>>
+    /\ k' = k + 1 /\ UNCHANGED <<fwd, stored, tdead, over>>
+
+(* a request of a grant type the messages cannot carry (port forwarding): the principal cannot use it; it answers *)
+(* with one denial and gives up on the connection (as found: it gave up without answering)                       *)
+Unusable ==
+    /\ k <= MaxReq /\ over = 0
+    /\ sc' = Append(sc, [tclass |-> "base", decision |-> "-", setup |-> "-", tbeh |-> "-", gt |-> "pf"])
+    /\ ans' = Append(ans, IF Variant = "fixed" THEN <<"deny">> ELSE <<>>)
+    /\ over' = k /\ k' = k + 1
+    /\ UNCHANGED <<connected, connTarget, tdead, cb, fwd, stored>>
 
 Request ==
-    /\ k <= MaxReq
+    /\ k <= MaxReq /\ over = 0
     /\ \E tc \in TClasses :
          IF connected /\ connTarget # tc
          THEN Deny(tc, "-", "-", connected, connTarget, cb, 1)                       \* request for a different target
@@ -80,15 +92,23 @@ Request ==
                        THEN Deny(tc, d, su, FALSE, "-", cb1, 1)
                        ELSE \E tb \in {"confirm", "deny", "storefail", "garbage", "close"} :
                               Forward(tc, d, su, tb, TRUE, tc, cb1)
+(* what the delegate sends after the principal has given up is not answered by anybody *)
+Ignored ==
+    /\ k <= MaxReq /\ over # 0
+    \* (what principal and target WOULD do with it is still chosen, for the replay on code that does not give up)
+    /\ \E tb \in {"confirm", "deny"} :
+         sc' = Append(sc, [tclass |-> "base", decision |-> "approve", setup |-> "ok", tbeh |-> tb, gt |-> "std"])
+    /\ ans' = Append(ans, <<>>) /\ k' = k + 1
+    /\ UNCHANGED <<over, connected, connTarget, tdead, cb, fwd, stored>>
 Done == k > MaxReq /\ UNCHANGED vars
-Next == Request \/ Done
+Next == Request \/ Unusable \/ Ignored \/ Done
 Spec == Init /\ [][Next]_vars
 
 -----------------------------------------------------------------------------
 (* C06 *)
 Approved(i) == \E j \in 1..Len(cb) : cb[j] = <<i, "approve">>
 ForwardedOnlyIfApproved == \A j \in 1..Len(fwd) : Approved(fwd[j])
-OneAnswerPerRequest == \A i \in 1..Len(ans) : Len(ans[i]) = 1
+OneAnswerPerRequest == \A i \in 1..Len(ans) : (over = 0 \/ i <= over) => Len(ans[i]) = 1
 ConfirmationMeansStored == \A i \in 1..Len(ans) : (\E j \in 1..Len(ans[i]) : ans[i][j] = "confirm") => i \in stored
 ForwardedOnce == \A i, j \in 1..Len(fwd) : fwd[i] = fwd[j] => i = j
 =============================================================================
